@@ -270,35 +270,38 @@ def replay_decode(ctx, prog, u, pc, claim):
             return
     userinfo = (user + (':' + pw if pw is not None else '') + '@') if (user or pw is not None) else ''
     url = f"{scheme}://{userinfo}{txt(u.host)}/{path}" + ('?' + '&'.join(f"{k}={v}" for (k, v, _, _) in q) if q else '')
-    # reference reading
-    exp_err, hb, cm, to, ext = None, 60, 0, None, False
+    # reference reading at the level of the property: every acceptable outcome for this URL
+    errs, hbs, cms, tos, ext = [], [], [], [], False
     if len(u.segs) > 1:
-        exp_err = 'ExtraUrlPathSegments'
+        errs.append('ExtraUrlPathSegments')
     for (k, v, p16, p64) in q:
-        if exp_err:
-            break
         if k == 'heartbeat':
-            if p16: hb = int(v)
-            else: exp_err = 'UrlParseHeartbeat'
+            hbs.append(int(v)) if p16 else errs.append('UrlParseHeartbeat')
         elif k == 'channel_max':
-            if p16: cm = int(v)
-            else: exp_err = 'UrlParseChannelMax'
+            cms.append(int(v)) if p16 else errs.append('UrlParseChannelMax')
         elif k == 'connection_timeout':
-            if p64: to = int(v)
-            else: exp_err = 'UrlParseConnectionTimeout'
+            tos.append(int(v)) if p64 else errs.append('UrlParseConnectionTimeout')
         elif k == 'auth_mechanism':
-            if v == 'external': ext = True
-            else: exp_err = 'UrlInvalidAuthMechanism'
+            if v == 'external':
+                ext = True
+            else:
+                errs.append('UrlInvalidAuthMechanism')
         else:
-            exp_err = 'UrlUnsupportedParameter'
+            errs.append('UrlUnsupportedParameter')
     vhost = txt(u.segs[0]) if txt(u.segs[0]) != '' else '/'
     creds = user != '' or pw is not None
     eu, ep = (user if user else 'guest', pw if pw is not None else 'guest') if creds else ('guest', 'guest')
-    if exp_err:
-        want = f"Err({exp_err})"
+    wants = []
+    if errs:
+        wants = [f"Err({e})" for e in sorted(set(errs))]
     else:
         auth = 'External' if ext else f'Plain {{ username: "{eu}", password: "{ep}" }}'
-        want = f"vhost={vhost}|hb={hb}|cm={cm}|to={'None' if to is None else 'Some(%dms)' % to}|auth={auth}"
+        for hb in (sorted(set(hbs)) or [60]):
+            for cm in (sorted(set(cms)) or [0]):
+                for to in (sorted(set(tos)) or [None]):
+                    wants.append(f"vhost={vhost}|hb={hb}|cm={cm}|to={'None' if to is None else 'Some(%dms)' % to}|auth={auth}")
+    want = ' OR '.join(wants)
+    lits = ', '.join('"' + w.replace(chr(92), chr(92) * 2).replace('"', chr(92) + '"') + '"' for w in wants)
     test = f'''
 use super::*;
 #[test]
@@ -308,8 +311,8 @@ fn verif_replay_c19() {{
         Ok(o) => format!("vhost={{}}|hb={{}}|cm={{}}|to={{}}|auth={{:?}}", o.virtual_host, o.heartbeat, o.channel_max, match o.connection_timeout {{ None => "None".to_string(), Some(d) => format!("Some({{}}ms)", d.as_millis()) }}, o.auth),
         Err(e) => format!("Err({{}})", format!("{{:?}}", e).split(|c| c == ' ' || c == '(' || c == '{{').next().unwrap()),
     }};
-    let want = "{want.replace('"', chr(92) + '"')}";
-    if got != want {{ println!("VERIF-REPLAY-VIOLATION url-decoding got={{}} want={{}}", got.replace(' ', "_"), want.replace(' ', "_")); }} else {{ println!("VERIF-REPLAY-OK"); }}
+    let acceptable: Vec<&str> = vec![{lits}];
+    if !acceptable.contains(&got.as_str()) {{ println!("VERIF-REPLAY-VIOLATION url-decoding got={{}} acceptable={{:?}}", got.replace(' ', "_"), acceptable); }} else {{ println!("VERIF-REPLAY-OK"); }}
 }}
 '''
     ctx.report('url-decoding', f"decode({url}) differs from the component-wise reading ({want})", {'url': url, 'expected': want}, test, inject_into='src/connection.rs::amqp_url', profiles=('dev',))
@@ -338,29 +341,37 @@ def decode_check(ctx, prog, ex, NSEG, NQ, viol):
             if isinstance(rv, Panic):
                 conds = [z3.BoolVal(False)]
             else:
-                hb, cm, to_some, to_val = z3.BitVecVal(60, 16), z3.BitVecVal(0, 16), z3.BoolVal(False), z3.BitVecVal(0, 64)
-                external = z3.BoolVal(False)
-                err = z3.StringVal('')       # first error, in processing order
-                def first(e_old, cond, name):
-                    return z3.If(z3.And(e_old == z3.StringVal(''), cond), z3.StringVal(name), e_old)
-                err = first(err, z3.And(u.has_path, z3.BoolVal(nseg > 1)), 'ExtraUrlPathSegments')
+                # property-level reading: every offending component has its specific error, and any one of them may be reported when there
+                # are several (the property does not order them); a parameter spelled twice may take either spelled value
+                offending = {}
+                def add(name, cond):
+                    offending[name] = z3.Or(offending.get(name, z3.BoolVal(False)), cond)
+                add('ExtraUrlPathSegments', z3.And(u.has_path, z3.BoolVal(nseg > 1)))
+                hb_any, cm_any, to_any, ext_any = [], [], [], []
                 for (k, v) in u.query:
-                    live = err == z3.StringVal('')
                     is_hb, is_cm, is_to, is_am = k == L('heartbeat'), k == L('channel_max'), k == L('connection_timeout'), k == L('auth_mechanism')
-                    err = first(err, z3.And(is_hb, z3.Not(ParsesU16(v))), 'UrlParseHeartbeat')
-                    err = first(err, z3.And(is_cm, z3.Not(ParsesU16(v))), 'UrlParseChannelMax')
-                    err = first(err, z3.And(is_to, z3.Not(ParsesU64(v))), 'UrlParseConnectionTimeout')
-                    err = first(err, z3.And(is_am, v != L('external')), 'UrlInvalidAuthMechanism')
-                    err = first(err, z3.Not(z3.Or(is_hb, is_cm, is_to, is_am)), 'UrlUnsupportedParameter')
-                    hb = z3.If(z3.And(live, is_hb), ValU16(v), hb)
-                    cm = z3.If(z3.And(live, is_cm), ValU16(v), cm)
-                    to_some = z3.Or(to_some, z3.And(live, is_to))
-                    to_val = z3.If(z3.And(live, is_to), ValU64(v), to_val)
-                    external = z3.Or(external, z3.And(live, is_am))
-                conds.append(err == z3.StringVal('' if out == 'Ok' else out))
+                    add('UrlParseHeartbeat', z3.And(is_hb, z3.Not(ParsesU16(v))))
+                    add('UrlParseChannelMax', z3.And(is_cm, z3.Not(ParsesU16(v))))
+                    add('UrlParseConnectionTimeout', z3.And(is_to, z3.Not(ParsesU64(v))))
+                    add('UrlInvalidAuthMechanism', z3.And(is_am, v != L('external')))
+                    add('UrlUnsupportedParameter', z3.Not(z3.Or(is_hb, is_cm, is_to, is_am)))
+                    hb_any.append((is_hb, ValU16(v)))
+                    cm_any.append((is_cm, ValU16(v)))
+                    to_any.append((is_to, ValU64(v)))
+                    ext_any.append(is_am)
+                any_off = z3.Or(*offending.values())
+                if out == 'Ok':
+                    conds.append(z3.Not(any_off))
+                else:
+                    conds.append(offending.get(out, z3.BoolVal(False)))
+                def one_of(pairs, got, default):
+                    none = z3.Not(z3.Or(*[c for (c, _) in pairs])) if pairs else z3.BoolVal(True)
+                    return z3.Or(z3.And(none, got == default), *[z3.And(c, got == val) for (c, val) in pairs])
+                external = z3.Or(*ext_any) if ext_any else z3.BoolVal(False)
                 if out == 'Ok':
                     g = read_options(prog, rv.payloads[0].fields[0])
-                    conds += [g('virtual_host').s == spec['vhost'], g('heartbeat').bv == hb, g('channel_max').bv == cm, g('frame_max').bv == 0, g('locale').s == L('en_US')]
+                    conds += [g('virtual_host').s == spec['vhost'], one_of(hb_any, g('heartbeat').bv, z3.BitVecVal(60, 16)), one_of(cm_any, g('channel_max').bv, z3.BitVecVal(0, 16)),
+                              g('frame_max').bv == 0, g('locale').s == L('en_US')]
                     auth = g('auth')
                     is_ext = AV[auth.disc] == 'External' if isinstance(auth.disc, int) else None
                     conds.append(external == z3.BoolVal(bool(is_ext)))
@@ -368,11 +379,12 @@ def decode_check(ctx, prog, ex, NSEG, NQ, viol):
                         pay = auth.payloads[auth.disc]
                         conds += [pay.fields[0].s == spec['user'], pay.fields[1].s == spec['pass']]
                     ct = g('connection_timeout')
+                    to_some = z3.Or(*[c for (c, _) in to_any]) if to_any else z3.BoolVal(False)
                     conds.append(to_some == z3.BoolVal(ct.disc == 1))
                     if ct.disc == 1:
-                        conds.append(ct.payloads[1].fields[0].fields[0].bv == to_val)
+                        conds.append(z3.Or(*[z3.And(c, ct.payloads[1].fields[0].fields[0].bv == val) for (c, val) in to_any]) if to_any else z3.BoolVal(False))
             m = ctx.decide(f"c19.decode[{nseg}]#{n}:{out}", s.pc, z3.And(*conds),
-                           group='decode: vhost / credentials (guest defaults, EXTERNAL overrides) / heartbeat / channel_max / connection_timeout exactly as the components spell them, last value wins; the first offending component yields its specific error',
+                           group='decode: vhost / credentials (guest defaults, EXTERNAL overrides) / heartbeat / channel_max / connection_timeout exactly as the components spell them; a URL with an offending component is rejected with the specific error of one of its offending components',
                            sample={'segments': nseg, 'result': out})
             if m is not None:
                 viol.append(('decode', nseg, out, ctx.explain(m, conds)[:3], u, list(s.pc), z3.And(*conds)))
